@@ -121,6 +121,11 @@ def configs(thorough):
                    dict(name='nothing changed', expect=[])], **I),
         C('history: ifchange a built by a.do; a.do removed (default.do remains)', 'C02 C13', targets=[b'a'], default_do=True,
           history=[dict(name='chosen .do removed', mutate='remove:a.do', expect=['a'], chosen='default.do')], **I),
+        C('history: ifchange a (declares redo-ifcreate f); again; f created', 'C14', targets=[b'a'], declares={(97,): ('ifcreate', b'f')},
+          history=[dict(name='nothing changed (f still absent)', expect=[]),
+                   dict(name='f created', mutate='create:f', expect=['a'], result=None)], **I),
+        C('history: ifchange a (declares redo-always); two more runs', 'C14', targets=[b'a'], declares={(97,): ('always',)},
+          history=[dict(name='a new run, nothing changed', expect=['a']), dict(name='another run', expect=['a'])], **I),
         C('history: ifchange a; a edited by hand; a removed', 'C02', targets=[b'a'],
           history=[dict(name='target edited by hand', mutate='touch:a', expect=[], content={'a': 'edited-by-user'}),
                    dict(name='edited target removed', mutate='remove:a', expect=['a'])], **I),
@@ -145,6 +150,8 @@ def configs(thorough):
             C('ifchange a b c -j: b locked by another redo, which fails', 'C05 C06 C09', flavour='ifchange', targets=[b'a', b'b', b'c'],
               top_level=0, pipe0=2, other_locks={b'b': 'failed'}),
             C('redo a ./a b/../a', 'C07 C09', targets=[b'a', b'./a', b'b/../a']),
+            C('history: ifchange a b (a declares redo-always); two more runs', 'C14', declares={(97,): ('always',)},
+              history=[dict(name='a new run, nothing changed', expect=['a']), dict(name='another run', expect=['a'])], **I),
             C('ifchange a b: a is up to date', 'C05 C07', flavour='ifchange', top_level=0, pipe0=1, prior={b'a': (CLEAN_ROW, tuple(S1))}),
         ]
     return cs
@@ -233,7 +240,7 @@ def explore(chk, pid, scn=None):
         if only and only != 'sched' and only not in cfg['name']:
             continue
         run_config(chk, pid, cfg)
-    if pid == 'C02' and scn is not None and not chk.candidates:
+    if pid in ('C02', 'C14') and scn is not None and not chk.candidates:
         # model validation: the histories' expectations (which scripts run after which user action) against the compiled binaries
         for cfg in CFGS:
             if not cfg['history'] or any(s_.get('only_after_failure') for s_ in cfg['history']):
@@ -315,7 +322,7 @@ def run_config(chk, pid, cfg):
                'other_locks': {k.decode('latin-1'): v for k, v in (cfg['other_locks'] or {}).items()},
                'variant': 'locked' if cfg['other_locks'] else ('unlocked-job' if cfg['deps'] else (
                    'nojob' if (cfg['no_do'] or cfg['prior']) else 'plain'))}
-        if pid not in ('C12', 'C02', 'C13'):
+        if pid not in ('C12', 'C02', 'C13', 'C14'):
             chk.goal('sched: two jobs run at the same time', w.max_running >= 2)
             chk.goal('sched: a job fails', any(v == 'fail' for v in F['status_by_target'].values()))
             chk.goal('sched: run() returns Ok', outcome == 'ok' and val[0] is not None and val[0].var == 'Ok')
@@ -766,7 +773,7 @@ def F0_status(eng, w, cfg, runs):
     return facts(eng, w, cfg, 0, hi)['status_by_target']
 
 
-JUDGES = {'C02': judge_history, 'C13': judge_history, 'C12': judge_c12, 'C05': judge_c05, 'C06': judge_c06, 'C07': judge_c07, 'C08': judge_c08, 'C09': judge_c09}
+JUDGES = {'C02': judge_history, 'C13': judge_history, 'C14': judge_history, 'C12': judge_c12, 'C05': judge_c05, 'C06': judge_c06, 'C07': judge_c07, 'C08': judge_c08, 'C09': judge_c09}
 
 
 TRACE_DO = 'echo %s >> trace\necho out-%s\n'
@@ -871,7 +878,8 @@ def history_replay(scn, c):
     if cfg is None or any(s_.get('only_after_failure') for s_ in cfg['history']):
         return False, 'no replay for this history'
     targets = [t.decode() for t in cfg['targets']]
-    body = 'echo @T@ >> trace\nif [ -s decl-@T@ ]; then redo-ifchange $(cat decl-@T@); fi\necho out-of-@T@\n'
+    body = ('echo @T@ >> trace\nif [ -s decl-@T@ ]; then redo-ifchange $(cat decl-@T@); fi\n'
+            'if [ -s declc-@T@ ]; then redo-ifcreate $(cat declc-@T@) || exit 0; fi\nif [ -e always-@T@ ]; then redo-always; fi\necho out-of-@T@\n')
     files = {}
     for t in targets:
         if t.encode() not in cfg['no_do']:
@@ -886,6 +894,13 @@ def history_replay(scn, c):
         out = []
         for t in targets:
             srcname = (d or {}).get(tuple(t.encode()))
+            if isinstance(srcname, tuple):
+                out.append('printf %%s "" > decl-%s' % t)
+                if srcname[0] == 'always':
+                    out.append(': > always-%s' % t)
+                else:
+                    out.append('printf %%s "%s" > declc-%s' % (srcname[1].decode(), t))
+                continue
             out.append('printf %%s "%s" > decl-%s' % (srcname.decode() if srcname else '', t))
             if srcname:
                 out.append('[ -e %s ] || echo "source v1" > %s' % (srcname.decode(), srcname.decode()))
